@@ -174,7 +174,7 @@ Definition check_case (c : vcase) : bool :=
       perm_eqb (pe_eqb verr_eqb) (walk (tree_of r pv c)) oall
   | CPipe p obs => option_eqb verr_eqb (pipe_shape_err p) obs
   | CDec paths name v obs =>
-      match lookup name schema with
+      match lookup name (schema ++ remain_levels)%list with
       | Some t =>
           if paths then perm_eqb (pe_eqb String.eqb) (unused t v) obs
           else perm_eqb String.eqb (map snd (unused t v)) (map snd obs)
@@ -222,7 +222,7 @@ Definition prop_clause (c : vcase) : option string :=
       first_clause [("a pipeline without receivers or exporters, or with a processor listed twice, is rejected"%string,
                      Bool.eqb (match obs with None => true | Some _ => false end) (shape_ok_b p))]
   | CDec paths name v obs =>
-      match lookup name schema with
+      match lookup name (schema ++ remain_levels)%list with
       | Some t => first_clause [("an unknown key at any depth is rejected with an error naming it"%string,
                                  if paths then unknown_named_b t v obs else unknown_keys_named_b t v obs)]
       | None => Some "unknown schema entry"%string
@@ -244,7 +244,7 @@ Definition prop_clause (c : vcase) : option string :=
   | CMis k w obs =>
       first_clause [("a value of the wrong kind is rejected"%string, negb (fam_mismatch_b k w) || is_err obs);
                     ("an accepted value is the written value"%string,
-                     is_err obs || is_keep obs || truncating_b k w || same_value_b w obs)]
+                     is_err obs || is_keep obs || same_value_b w obs)]
   | CNotify conf exts obs after =>
       first_clause [("every ConfigWatcher is handed the effective configuration"%string,
                      forallb (fun r => cv_eqm (fst r) conf && cv_eqm conf (fst r)) obs);
@@ -288,7 +288,7 @@ Definition model_out (c : vcase) : vout :=
   | CWalk _ t _ => OWalk (walk t)
   | CCfg g c _ _ _ => OCfg (cfg_candidates g c) (pipes_candidates g c) (full_validate g c)
   | CPipe p _ => OPipe (pipe_shape_err p)
-  | CDec _ name v _ => ODec (option_map (fun t => unused t v) (lookup name schema))
+  | CDec _ name v _ => ODec (option_map (fun t => unused t v) (lookup name (schema ++ remain_levels)%list))
   | CFaith name d m _ => OFaith (decode_model name d m)
   | CEff v _ => OEff (encode v)
   | CMis k w _ => OMis (decode_leaf k w)
